@@ -34,6 +34,10 @@ class Simulator:
     def coverage_extra(self, prop, stats):
         return {}
 
+    def extra_checks(self, prop, tier, verif_seed):
+        """Optional non-simulated cross-checks run by the driver after the batch: -> (coverage dict, harness errors)."""
+        return {}, []
+
     def reach_failures(self, prop, stats, tier):
         return []
 
